@@ -56,12 +56,12 @@ class BaseCorrection(ABC):
                     if image.scalar:
                         # Apply transformation to single time slices for scalar data
                         corrected_slices.append(
-                            self.correct_array(image.img[..., time_index])
+                            self.correct_array(img[..., time_index])
                         )
                     else:
                         # Apply transformation to single time slices for vectorial data
                         corrected_slices.append(
-                            self.correct_array(image.img[..., time_index, :])
+                            self.correct_array(img[..., time_index, :])
                         )
 
                 # Stack slices together again
